@@ -6,7 +6,7 @@ from .common import TRUSTED, ASSUMPTIONS, default_nontrivial, LEVEL_NOTE, TECHNI
 LEVEL = "proof"
 THEOREMS = ['C02_total', 'C02_simplex_wf', 'C02_simplex_wf_ecm', 'C02_base_rate_between', 'C02_base_rate_between_unconditional', 'C02_base_rate_shared', 'C02_base_rate_sum', 'C02_base_rate_sum_bound', 'C02_wf', 'C02_wf_ecm', 'C02_fuse_os', 'C02_fuse_ss',
             'C02_ecm_masses_nonneg', 'C02_ecm_masses_nonneg_gen', 'C02_wf_ecm_unconditional']
-EXTRA_MODULES = [("SLV.Props.Guards", "C02_")]
+EXTRA_MODULES = [("SLV.Props.Guards", "C02_"), ("SLV.Props.C02Equal", ("C02_equal_entry_unchanged",))]
 RULE = ("fuse / fuse_os / fuse_ss for the 4 operators (clauses: simplex well-formed, base rate sums to 1, every entry between the operands' entries, a shared base-rate object returned unchanged, and an entry on which the operands agree exactly BY VALUE returned exactly -- equal_entries_unchanged, with a stream of equal-valued non-dyadic base rates held in separate vectors): guard lattice (vacuous, dogmatic, tolerance-edge vacuous u=1-k*eps/2, "
         "tolerance-edge dogmatic, interior; base rates different / equal / within a few ulps / one shared object), dyadic grids "
         "(exhaustive den 4 for n=2,3 in thorough; random up to 1/64), uncertainty sweeps 1e-300..1e-3 and 1-1e-3..1-2^-52, "
